@@ -1,6 +1,6 @@
 (* C15 - replacement strings follow the $N and backslash rules exactly.
    Only statements, pins and assumption reports live here; proofs are in Proofs/. *)
-From RX Require Import Base.Prelude Spec.Repl Model.Engine Model.Matcher Model.Api Proofs.ReplProof Proofs.ScanFacts.
+From RX Require Import Base.Prelude Spec.Repl Model.Engine Model.Matcher Model.Api Proofs.ReplProof Proofs.ScanFacts Proofs.ReplaceFacts.
 
 (* The faithful expansion loop of ReMatcher::replace (index arithmetic, the >9-groups digit loop,
    the simple_replacement flag) equals the replacement grammar of Spec/Repl.v: for every
@@ -29,6 +29,29 @@ Theorem C15_no_match_returns_input :
     replace_loop matchf literal maxparens input repl (length input + 2) 0 s0 [] true false = Ok input.
 Proof. intros. apply replace_no_match; assumption. Qed.
 
+(* The whole of ReMatcher::replace for a replacement the grammar accepts, over an abstract match
+   function with the interface facts good_step and "the group arrays it leaves can be sliced": the
+   result is the input with every span of the scan replaced by the rendering of the replacement's
+   items under that match's groups - across the simple_replacement latch too, which from the second
+   match on appends the raw replacement text when it contains neither '$' nor '\'. *)
+Theorem C15_replace_valid_partial :
+  forall matchf maxc input repl its s0,
+    good_step matchf input ->
+    (forall pos s s', pos <= length input -> matchf pos s = MTrue s' -> forall g, exists o, get_paren input s' g = Ok o) ->
+    parse_repl maxc repl = PItems its ->
+    replace_loop matchf false (S maxc) input repl (length input + 2) 0 s0 [] true false
+    = Ok (rep_out matchf maxc input its (length input + 2) 0 s0).
+Proof. intros matchf maxc input repl its s0 G Hc Hp. exact (replace_valid matchf maxc input repl G Hc its s0 Hp). Qed.
+
+(* a replacement the grammar rejects is never used to produce output: the first match reports it *)
+Theorem C15_replace_invalid_partial :
+  forall matchf maxc input repl s0 s',
+    good_step matchf input ->
+    (forall pos s s', pos <= length input -> matchf pos s = MTrue s' -> forall g, exists o, get_paren input s' g = Ok o) ->
+    parse_repl maxc repl = PInvalid -> 0 < length input -> matchf 0 s0 = MTrue s' ->
+    replace_loop matchf false (S maxc) input repl (length input + 2) 0 s0 [] true false = Err EInvalidRepl.
+Proof. intros matchf maxc input repl s0 s' G Hc Hp Hn Hm. exact (replace_invalid matchf maxc input repl G Hc s0 s' Hp Hn Hm). Qed.
+
 (* non-vacuity: "$1x\$$0" with one group, "$12" with 12 groups, and an invalid string *)
 Example C15_ex1 :
   expand [36;49;120;92;36;36;48]%N 1 (fun g => Ok (match g with 0 => Some [119]%N | 1 => Some [97;98]%N | _ => None end)) []
@@ -42,3 +65,5 @@ Proof. vm_compute. repeat split. Qed.
 Print Assumptions C15_expand.
 Print Assumptions C15_parse_total.
 Print Assumptions C15_no_match_returns_input.
+Print Assumptions C15_replace_valid_partial.
+Print Assumptions C15_replace_invalid_partial.
